@@ -1325,6 +1325,40 @@ func genC08Sort(r *rand.Rand, n int, tier string) []string {
 	return out
 }
 
+// metamorphic re-runs on the real engine: sorting the answer again changes nothing (sort_idempotent,
+// keysort by stability); sorting the reversed input gives the same answer (sort_perm_invariant).
+func (c *c08ctx) metamorphic(kind string, list engine.Term, w string) string {
+	norm := kind != "keysort"
+	pred := kind
+	if kind == "setof" {
+		pred = "sort"
+	}
+	s1, s2 := engine.NewVariable(), engine.NewVariable()
+	w2, ok, err := c.first(compound(",", compound(pred, list, s1), compound(pred, s1, s2)), s2, norm)
+	idem := "same"
+	if err != nil || !ok || w2 != w {
+		idem = "diff"
+	}
+	if kind == "keysort" {
+		return "idem=" + idem
+	}
+	var es []engine.Term
+	iter := engine.ListIterator{List: list, Env: c.env}
+	for iter.Next() {
+		es = append(es, iter.Current())
+	}
+	for i, j := 0, len(es)-1; i < j; i, j = i+1, j-1 {
+		es[i], es[j] = es[j], es[i]
+	}
+	s3 := engine.NewVariable()
+	w3, ok, err := c.first(compound(pred, engine.List(es...), s3), s3, norm)
+	perm := "same"
+	if err != nil || !ok || w3 != w {
+		perm = "diff"
+	}
+	return "idem=" + idem + " perm=" + perm
+}
+
 func runC08Sort(payload string) string {
 	f := splitBar(payload)
 	if len(f) != 6 {
@@ -1363,11 +1397,14 @@ func runC08Sort(payload string) string {
 		out, res = "false", "false"
 	default:
 		out = "ans " + w
+		if _, isVar := c.env.Resolve(sorted).(engine.Variable); isVar {
+			out += " ; " + c.metamorphic(kind, list, w)
+		}
 	}
 	// non-trivial: a well-formed call on ≥ 3 elements whose answer differs from its input
 	// (something had to be moved or removed)
 	nt := 0
-	if res == "ans" && len(es) >= 3 && out != "ans "+f[4] {
+	if res == "ans" && len(es) >= 3 && !strings.HasPrefix(out, "ans "+f[4]+" ;") && out != "ans "+f[4] {
 		nt = 1
 	}
 	size := "0"
